@@ -13,6 +13,7 @@ import (
 	"testing"
 
 	"github.com/llir/llvm/ir"
+	"github.com/llir/llvm/ir/constant"
 	"github.com/llir/llvm/ir/metadata"
 	"github.com/llir/llvm/ir/types"
 )
@@ -85,6 +86,8 @@ a:
 	ret void
 b:
 	%q = select i1 true, i8* blockaddress(@g, %x), i8* blockaddress(@f, %a)
+	br label %x
+x:
 	ret void
 }
 define void @g() {
@@ -311,6 +314,13 @@ func verifC04Check(m *ir.Module) []string {
 			case *ir.AttrGroupDef:
 				if !attrs[x] {
 					addErr("%s: attribute group #%d is not the object listed in Module.AttrGroupDefs", path, x.ID)
+				}
+			case *constant.BlockAddress:
+				// the block belongs to the function the constant names (never to the function that uses it)
+				if b, isB := x.Block.(*ir.Block); isB {
+					if f, ok := blocks[b]; ok && constant.Constant(f) != x.Func {
+						addErr("%s: blockaddress(%s, %s) holds a block of %s", path, x.Func.Ident(), b.Ident(), f.Ident())
+					}
 				}
 			case *ir.Block:
 				f, ok := blocks[x]
